@@ -257,7 +257,7 @@ func rebuildAny(s *cz.Schema, e *cz.Embedding) (schema.Type, error) {
 // unitVariants: a schema with units must behave the same when its units definition did not pass NewUnits -
 // written as a struct literal, or received as a description.
 func unitVariants(c *vecCase, e *cz.Embedding, arg any, r *resT) {
-	if !c.S.HasUnits() {
+	if !c.S.HasLiteralRoute() {
 		return
 	}
 	run := func(t schema.Type, how string) {
@@ -274,9 +274,13 @@ func unitVariants(c *vecCase, e *cz.Embedding, arg any, r *resT) {
 		}
 	}
 	if lit, err := cz.BuildLiteralUnits(c.S, e); err == nil {
-		run(lit.Type, "literal_units")
+		how := "literal" // scalars / enums written as struct literals (enum values without display data)
+		if c.S.HasUnits() {
+			how = "literal_units"
+		}
+		run(lit.Type, how)
 	}
-	if describable(c.S) {
+	if c.S.HasUnits() && describable(c.S) {
 		if t, err := rebuildAny(c.S, e); err == nil {
 			run(t, "rebuilt")
 		} else {
